@@ -904,6 +904,98 @@ fn c17_clear_vs_fresh_sync_pess() {
   step_clear::<sync::Arena, 2, 3, 128>(cfg!(Pessimistic, 1));
 }
 
+// ============================ C05: the reopen transformation =================================
+/// What a writable reopen does to the file image was decided on the real `map_mut_in` closure by Engine M (R1):
+/// `if len > allocated { write_bytes(ptr + allocated, 0, len - allocated) }`, nothing else. This harness applies
+/// that transformation to an arbitrary INV state through the arena's own accessors and decides that every
+/// observable, the free list, the reserved prefix and every live byte are what they were before closing, that INV
+/// still holds, and that one allocation from the reopened state neither overlaps a range that was live before
+/// closing nor leaves the data area (the INV-step harnesses then carry C01/C10 through any later history).
+pub(crate) fn step_reopen<A: Allocator, const N: usize, const M: usize, const CAP: usize>(cfg: Cfg) {
+  let l = lay(cfg.res, CAP as u32);
+  let arena: A = mk::<A>(cfg.fl, cfg.retries, &l, 20);
+  let pre = Pre::<N>::any(&l, cfg.fl);
+  let lv = Live::any(&l, &pre);
+  let data: [u8; CAP] = kani::any();
+  unsafe { poke::<A, N, CAP>(&arena, &l, &pre, &data) };
+  let p = arena.raw_mut_ptr();
+  let w_before = unsafe { rd8(p, if lv.ll > 0 { lv.w } else { lv.la.min(CAP as u32 - 1) }) };
+  let r_before = unsafe { rd8(p, lv.r) };
+  // ---- the reopen transformation (R1), cursor read through the real accessor ----
+  let allocated = arena.allocated();
+  let len = arena.capacity();
+  assert!(allocated == pre.allocated as usize, "ENC: allocated readback");
+  if len > allocated {
+    unsafe { core::ptr::write_bytes(p.add(allocated), 0, len - allocated) };
+  }
+  // ---- everything the property lists is what it was before closing ----
+  let post: Post<M> = unsafe { read_post::<A, M>(&arena, &l, CAP as u32) };
+  assert!(arena.allocated() == pre.allocated as usize && post.allocated == pre.allocated, "C05: allocated() survives the reopen");
+  assert!(arena.discarded() == pre.discarded && post.discarded == pre.discarded, "C05: discarded() survives the reopen");
+  assert!(arena.minimum_segment_size() == pre.min_seg && post.min_seg == pre.min_seg, "C05: minimum segment size survives the reopen");
+  assert!(arena.data_offset() == l.dofs as usize, "C05: data_offset() survives the reopen");
+  assert!(list_unchanged(&pre, &post), "C05: freed ranges stay on the free list across the reopen");
+  assert_inv_post(&post, &l, cfg.fl, &lv, (0, 0));
+  if lv.ll > 0 {
+    assert!(unsafe { rd8(p, lv.w) } == w_before, "C05: bytes of a handed-out range are unchanged by the reopen");
+  }
+  assert!(unsafe { rd8(p, lv.r) } == r_before, "C05: reserved prefix unchanged by the reopen");
+  if len > allocated {
+    let z: u32 = kani::any();
+    kani::assume(z as usize >= allocated && (z as usize) < len);
+    assert!(unsafe { rd8(p, z) } == 0, "C05/C08: everything at or above the stored cursor reads zero after the reopen");
+  }
+  // ---- one allocation from the reopened state ----
+  let n: u32 = kani::any();
+  kani::assume(n <= 2 * CAP as u32);
+  let g = do_alloc::<A, ()>(&arena, Kind::Bytes, n);
+  if g.ok {
+    // (a zero-sized request is answered with an empty handle at offset 0: no extent to place)
+    assert!(g.bc == 0 || (g.bo >= l.dofs && g.bo as u64 + g.bc as u64 <= CAP as u64), "C05: allocation after the reopen lies in the data area");
+    assert!(disjoint(g.bo, g.bc, lv.la, lv.ll), "C05: allocation after the reopen does not overlap a range that was live before closing");
+    if lv.ll > 0 {
+      assert!(unsafe { rd8(p, lv.w) } == w_before, "C05: allocation after the reopen leaves live bytes alone");
+    }
+  } else {
+    assert!(g.space_err, "C05: a refused allocation after the reopen is InsufficientSpace");
+  }
+  kani::cover!(pre.k > 0 && len > allocated && lv.ll > 0, "reopen with a free list, live data and a tail to zero");
+  kani::cover!(len == allocated, "reopen of a full arena: nothing to zero");
+  kani::cover!(g.ok && pre.k > 0 && g.bo < pre.allocated, "allocation after the reopen served from a freed range");
+  core::mem::forget(arena);
+}
+
+// @h props=C05 tier=quick timeout=1500 bounds=CAP=128,MAXN=2,n<=256
+#[kani::proof]
+#[kani::unwind(5)]
+fn c05_reopen_step_unsync_opt() {
+  step_reopen::<unsync::Arena, 2, 3, 128>(cfg!(Optimistic, 1));
+}
+// @h props=C05 tier=quick timeout=1800 bounds=CAP=128,MAXN=2,n<=256,retries=1
+#[kani::proof]
+#[kani::unwind(5)]
+fn c05_reopen_step_sync_pess() {
+  step_reopen::<sync::Arena, 2, 3, 128>(cfg!(Pessimistic, 1));
+}
+// @h props=C05 tier=thorough timeout=1800 bounds=CAP=128,MAXN=2,n<=256
+#[kani::proof]
+#[kani::unwind(5)]
+fn c05_reopen_step_unsync_pess() {
+  step_reopen::<unsync::Arena, 2, 3, 128>(cfg!(Pessimistic, 1));
+}
+// @h props=C05 tier=thorough timeout=1800 bounds=CAP=128,MAXN=2,n<=256,retries=1
+#[kani::proof]
+#[kani::unwind(5)]
+fn c05_reopen_step_sync_opt() {
+  step_reopen::<sync::Arena, 2, 3, 128>(cfg!(Optimistic, 1));
+}
+// @h props=C05 tier=thorough timeout=900 bounds=CAP=128,list=None,n<=256 optcover=reopen_with_a_free_list|allocation_after_the_reopen_served
+#[kani::proof]
+#[kani::unwind(5)]
+fn c05_reopen_step_sync_none() {
+  step_reopen::<sync::Arena, 1, 2, 128>(cfg!(None, 1));
+}
+
 // ============================ C15: arena-level readers =======================================
 pub(crate) fn c15_setup<A: Allocator, const CAP: usize>() -> (A, u32) {
   let l = lay(0, CAP as u32);
